@@ -169,6 +169,9 @@ T_End ==
   /\ bad' = bad \cup Flag(Ev.err = "", "RunReturnedError")
                 \cup Flag(Ev.request = request /\ Ev.response = response, "MetricsRequestResponse")
                 \cup Flag(Ev.inst_start = instStart /\ Ev.inst_finish = instFinish, "MetricsInstances")
+                \* the result file of the real phout behind the recording aggregator: one line per fired shot and per
+                \* discarded token, the discarded ones (and only they) tagged `discarded` with net code 777
+                \cup Flag(~Ev.phout \/ (Ev.ph_lines = fired + discarded /\ Ev.ph_disc = discarded), "PhoutLinesAreShotsAndDiscards")
   /\ UNCHANGED <<cfg, now, provVars, schedVars, startVars, ctxVars, instVars, cntVars,
                  runRes, provCh, aggCh, startCh, aw, ghostVars, tokT, tokR, sparts, nlo, explicit, sidOf>>
 
